@@ -12,6 +12,7 @@ import rules_codec  # noqa: F401
 import rules_misc  # noqa: F401
 import rules_wiring  # noqa: F401
 import rules_daemon  # noqa: F401
+import rules_pdu  # noqa: F401
 from props import PROPS
 
 
